@@ -133,6 +133,7 @@ type Sim struct {
 	Violations []*Violation
 	mapSeed    uint64
 	NoFaults   bool
+	Trouble    string
 }
 
 // New creates a simulator for one run. Must be called inside a synctest bubble.
@@ -186,6 +187,17 @@ func TaskFrom(ctx context.Context) *Task {
 	t, _ := ctx.Value(taskKey{}).(*Task)
 	return t
 }
+
+type noYieldKey struct{}
+
+// WithNoYield marks a context whose seam calls are served immediately (used by
+// the harness itself, e.g. to close connections at the end of a run).
+func WithNoYield(ctx context.Context) context.Context {
+	return context.WithValue(ctx, noYieldKey{}, true)
+}
+
+// NoYield reports whether ctx was marked by WithNoYield.
+func NoYield(ctx context.Context) bool { b, _ := ctx.Value(noYieldKey{}).(bool); return b }
 
 // Go starts a task running fn.
 func (s *Sim) Go(p *Proc, label string, fn func(ctx context.Context), onDone func(*Task)) *Task {
@@ -285,12 +297,31 @@ func (s *Sim) Wait() {
 			if t.Panic != nil {
 				s.Probe("task-panic")
 				s.Logf("task %s panicked: %s", t.Label, firstLine(fmt.Sprint(t.Panic)))
+				if harnessPanic(fmt.Sprint(t.Panic)) && s.Trouble == "" {
+					s.Trouble = "panic in harness code: " + fmt.Sprint(t.Panic)
+				}
 			}
 			if t.OnDone != nil {
 				t.OnDone(t)
 			}
 		}
 	}
+}
+
+// harnessPanic reports whether the innermost non-runtime frame of a panic
+// stack is harness code (a bug in the machinery, not in the code under test).
+func harnessPanic(stack string) bool {
+	for _, l := range strings.Split(stack, "\n") {
+		l = strings.TrimSpace(l)
+		if !strings.HasPrefix(l, "/") {
+			continue
+		}
+		if strings.Contains(l, "/src/runtime/") || strings.Contains(l, "sim/sim/sim.go") {
+			continue
+		}
+		return strings.HasPrefix(l, "/verif/") || strings.Contains(l, "/verifsim/")
+	}
+	return false
 }
 
 func firstLine(s string) string {
